@@ -523,6 +523,19 @@ Proof.
   assert (0 <= consumed / 5) by (apply Z.div_pos; lia). lia.
 Qed.
 
+(* gas used after the refund grows with the gas consumed: the bracket [gas_after_refund lb c, gas_after_refund ub c]
+   that Corr/CorrTxPipe.oracle_consistent checks around the observed gas used is sound for lb <= consumed <= ub *)
+Lemma gas_after_refund_monotone c1 c2 counter :
+  0 <= c1 <= c2 -> gas_after_refund c1 counter <= gas_after_refund c2 counter.
+Proof.
+  intros H. unfold gas_after_refund.
+  assert (c1 / 5 <= c2 / 5) by (apply Z.div_le_mono; lia).
+  assert (c2 / 5 - c1 / 5 <= c2 - c1).
+  { pose proof (Z.div_mod c1 5 ltac:(lia)). pose proof (Z.div_mod c2 5 ltac:(lia)).
+    pose proof (Z.mod_pos_bound c1 5 ltac:(lia)). pose proof (Z.mod_pos_bound c2 5 ltac:(lia)). lia. }
+  lia.
+Qed.
+
 (* ------------------------------------------------------------------ bloom (abstract bits) *)
 Section Bloom.
   Variable log : Type.
